@@ -446,7 +446,9 @@ def probe_cases(rng, tier):
               'multi-simple', 'multi-6node', 'lowfi-6node',
               'rod2-convapprox', 'rod3-wirecw-mit', 'opt-se2geo',
               'opt-3duct-convapprox', 'opt-dd-regions-adiabatic-gravity',
-              'opt-uctd-grid-regions', 'opt-delta-temp-bc-noflowgap'):
+              'opt-uctd-grid-regions', 'opt-delta-temp-bc-noflowgap',
+              'opt-five-regions', 'opt-bare-kc', 'opt-htc-custom-dd',
+              'opt-shapefactor-ct', 'opt-eng-se2-mit', 'opt-lowfi-cf-float'):
         lab.append((k, sl[k]))
     if tier == 'thorough':
         for k in ('rod4-adiabatic', 'rod5-dd', 'rod3-3duct', 'rod2-laminar',
